@@ -10,7 +10,7 @@
 From stdpp Require Import gmap list.
 From Coq Require Import NArith.
 From BS Require Import Abs.Entities Abs.EntitiesProofs.
-From BS Require Sync.Types Sync.Model Sync.Observe Sync.Proofs.Hierarchy Sync.Proofs.Tracker Sync.Proofs.UuidStable Sync.Proofs.Unique.
+From BS Require Sync.Types Sync.Model Sync.Observe Sync.UniquePremise Sync.Proofs.Hierarchy Sync.Proofs.Tracker Sync.Proofs.UuidStable Sync.Proofs.Unique.
 Local Open Scope N_scope.
 
 (* uniqueness: on EVERY run (also inside the known defect classes) no peer holds a uuid twice; the
@@ -123,10 +123,11 @@ Proof. exact UuidStable.uuid_changes_when_a_replica_is_marked. Qed.
    hosting peer the uuid has no holder yet and is announced once, on a client every holder is the one the
    tracker names or the uuid is tombstoned, no delete of it waits in front). That announcements ARE fresh is
    what the event-level theorem C01_host_never_receives_duplicate above establishes for the protocol; the
-   premise is not audited on the real runs (the entity oracle looks for duplicate entities there). *)
+   premise (Sync/UniquePremise.v, definitions only) is extracted with the model and evaluated by the driver on
+   the state before every replayed frame of every real run; the evidence reports how often it holds. *)
 Theorem C01_at_most_one_entity_per_uuid :
-  forall n tr, UuidStable.uuid_conforming n tr -> Unique.spawns_fresh n tr ->
-    forall p pr, Model.grun (Observe.init_global n) tr !! p = Some pr -> Unique.uuid_unique pr.
+  forall n tr, UuidStable.uuid_conforming n tr -> UniquePremise.spawns_fresh n tr ->
+    forall p pr, Model.grun (Observe.init_global n) tr !! p = Some pr -> UniquePremise.uuid_unique pr.
 Proof. exact Unique.grun_uuid_unique. Qed.
 
 (* the premise is needed on this model: script entities are identified by the id the application chose, and two
@@ -134,7 +135,7 @@ Proof. exact Unique.grun_uuid_unique. Qed.
    re-uses a handle); a host has no duplicate guard *)
 Theorem C01_duplicate_announcements_make_duplicates :
   exists n tr p pr, UuidStable.uuid_conforming n tr /\ Hierarchy.hier_conforming n tr /\
-                    Model.grun (Observe.init_global n) tr !! p = Some pr /\ ~ Unique.uuid_unique pr.
+                    Model.grun (Observe.init_global n) tr !! p = Some pr /\ ~ UniquePremise.uuid_unique pr.
 Proof. exact Unique.uuid_unique_refuted. Qed.
 
 Print Assumptions C01_entities_unique.
